@@ -265,7 +265,7 @@ def _discharge_int(p, fi, call):
 def r8_1(ctx):
     p = ctx.p
     fam = _bad_family(p)
-    ctx.require("BadCommand" in fam, "BadCommand family not found")
+    ctx.require("BadCommand" in fam, "BadCommand family not found", anchor=True)
     graph = parse_graph(p)
     ctx.floor("R8.1", len(graph), 70, "functions reachable from parse()")
     root_catches = _root_catches(p, fam)
@@ -709,15 +709,15 @@ def r8_6(ctx):
 
 
 def run(ctx):
-    r8_1(ctx)
-    r8_2(ctx)
-    r8_3(ctx)
-    r8_4(ctx)
-    r8_5(ctx)
-    r8_6(ctx)
+    ctx.do(r8_1)
+    ctx.do(r8_2)
+    ctx.do(r8_3)
+    ctx.do(r8_4)
+    ctx.do(r8_5)
+    ctx.do(r8_6)
     from . import c04, c16, c19
-    c16.r16_2(ctx)
-    c19.r19_6_7(ctx)
-    c04.r4_7(ctx)
+    ctx.do(c16.r16_2)
+    ctx.do(c19.r19_6_7)
+    ctx.do(c04.r4_7)
     for k, v in INFEASIBLE_RAISE.items():
         ctx.trust(f"frozen infeasible raise: {k[0]} {k[1]} - {v}")
